@@ -17,15 +17,21 @@ Rec == ndJsonDeserialize(IOEnv.TRACE)
 VARIABLES l
 More == l <= Len(Rec)
 
-PowOK(a, b, c, q) ==
-  /\ Lt(c, PBN)
-  /\ CASE IsZero(b) -> Eq(c, One)
-       [] Eq(b, One) -> Eq(c, a)
-       [] Eq(b, <<2>>) -> Rel("Mul", a, a, c, q)
-       [] OTHER -> TRUE
+\* Pow: the recorded square-and-multiply chain is verified product by product (the chain is untrusted advice):
+\* acc_0 = 1; for the bits of b from the top: s_k = acc^2, out_k = s_k * a if the bit is set, else s_k; c = out_n.
+PowOK(a, b, c, cert) ==
+  LET n == Len(cert)
+      Prev(k) == IF k = 1 THEN One ELSE cert[k - 1].out
+  IN /\ Lt(c, PBN)
+     /\ n = BitLen(b)
+     /\ \A k \in 1..n :
+          /\ Lt(cert[k].s, PBN) /\ Lt(cert[k].out, PBN)
+          /\ Rel("Mul", Prev(k), Prev(k), cert[k].s, cert[k].sq)
+          /\ IF BitAt(b, n - k) = 1 THEN Rel("Mul", cert[k].s, a, cert[k].out, cert[k].mq) ELSE Eq(cert[k].out, cert[k].s)
+     /\ Eq(c, IF n = 0 THEN One ELSE cert[n].out)
 OneOK(e, r) ==
   /\ r.res = "ok"
-  /\ IF e.op = "Pow" THEN PowOK(e.a, e.b, r.c, r.q) ELSE Holds(e.op, e.a, e.b, r.c, r.q)
+  /\ IF e.op = "Pow" THEN PowOK(e.a, e.b, r.c, e.cert) ELSE Holds(e.op, e.a, e.b, r.c, r.q)
 
 LineOK(e) ==
   CASE e.t = "op" ->
